@@ -8,9 +8,10 @@ import os, sys, json, shutil, subprocess, argparse, time, re
 ap = argparse.ArgumentParser()
 ap.add_argument('prop'); ap.add_argument('k')
 ap.add_argument('--checks', default=None); ap.add_argument('--tier', default='quick'); ap.add_argument('--nosuite', action='store_true')
+ap.add_argument('--src', default='/tmp/mut'); ap.add_argument('--wave', type=int, default=1)
 a = ap.parse_args()
-src = '/tmp/mut/%s_out' % a.prop
-sid = '%s-%s' % (a.prop, a.k)
+src = '%s/%s_out' % (a.src, a.prop)
+sid = '%s-%s' % (a.prop, int(a.k) + 2 * (a.wave - 1))
 dst = '/verif/seeded/%s' % sid
 os.makedirs(dst, exist_ok=True)
 for f, t in (('patch%s.diff' % a.k, 'patch.diff'), ('demo%s.py' % a.k, 'demo.py'), ('notes%s.md' % a.k, 'notes.md')):
@@ -18,7 +19,7 @@ for f, t in (('patch%s.diff' % a.k, 'patch.diff'), ('demo%s.py' % a.k, 'demo.py'
         shutil.copy(os.path.join(src, f), os.path.join(dst, t))
 meta_path = os.path.join(dst, 'meta.json')
 meta = json.load(open(meta_path)) if os.path.exists(meta_path) else {}
-meta.update({'id': sid, 'property': a.prop, 'source': 'independent sub-agent given only the property text and a scratch worktree'})
+meta.update({'id': sid, 'property': a.prop, 'wave': a.wave, 'source': 'independent sub-agent given only the property text and a scratch worktree'})
 notes = open(os.path.join(dst, 'notes.md')).read() if os.path.exists(os.path.join(dst, 'notes.md')) else ''
 meta['needs_to_manifest'] = notes.strip()[:1500]
 wt = '/tmp/intake-%s' % sid
